@@ -782,5 +782,16 @@ ssize_t ZCK_PUBLIC_API zck_get_chunk_data(zckChunk *idx, char *dst,
     zck->comp.data_idx = idx;
     if(!hash_init(zck, &(zck->check_chunk_hash), &(zck->chunk_hash_type)))
         return -1;
-    return comp_read(zck, dst, dst_size, 1);
+    ssize_t rb = comp_read(zck, dst, dst_size, 1);
+    /* A chunk that isn't decoded as a unit (no compression) is handed out as
+     * it is read, so when the caller's buffer holds exactly the whole chunk
+     * its checksum hasn't been looked at yet.  Finish the chunk now, so the
+     * data is verified and the chunk is marked valid like any other */
+    if(rb > 0 && zck->comp.data_idx == idx &&
+       zck->comp.data_loc == idx->comp_length &&
+       zck->comp.dc_data_loc == zck->comp.dc_data_size) {
+        if(comp_end_dchunk(zck, 1, idx->length) < 0)
+            return -1;
+    }
+    return rb;
 }
